@@ -16,7 +16,7 @@ func (g *G) stmt() Tri {
 		return printCall(same(`"~"`))
 	}
 	for tries := 0; tries < 3; tries++ {
-		switch g.n(0, 23, "stmt") {
+		switch g.n(0, 24, "stmt") {
 		case 0, 1:
 			return g.stDecl()
 		case 2, 3:
@@ -91,6 +91,8 @@ func (g *G) stmt() Tri {
 			}
 		case 23:
 			return g.stSliceSpread()
+		case 24:
+			return g.stTupleAssign()
 		}
 	}
 	return g.stAssign()
@@ -309,6 +311,12 @@ func (g *G) genFunc() {
 	}
 	if f.Pure && len(f.Results) == 0 {
 		f.Results = []*Type{scalarTypes[g.n(0, len(scalarTypes)-1, "resT1")]}
+	}
+	// sometimes a single struct result (read as f(args).field: a field of a non-addressable value)
+	if len(g.structs) > 0 && g.chance(1, 5, "structResult") {
+		if st := g.structs[g.n(0, len(g.structs)-1, "resS")]; !g.hasPtrField(st) {
+			f.Results = []*Type{st}
+		}
 	}
 	var named []*Var
 	if len(f.Results) > 0 && g.chance(1, 3, "namedResults") {
